@@ -19,12 +19,13 @@ import (
 )
 
 type BigDesc struct {
-	Tri    bool `json:"tri"`
-	N      int  `json:"n"`
-	NF     int  `json:"nf"`
-	Mask   int  `json:"mask"`
-	Seed   int  `json:"seed"`
-	Unspec bool `json:"unspec"`
+	Tri    bool   `json:"tri"`
+	N      int    `json:"n"`
+	NF     int    `json:"nf"`
+	Mask   int    `json:"mask"`
+	Seed   int    `json:"seed"`
+	Unspec bool   `json:"unspec"`
+	Via    string `json:"via,omitempty"` // how the file reaches ply.ReadMesh (see Desc.Via)
 }
 
 const fpMask = 1<<63 - 1
@@ -59,7 +60,7 @@ func svali(seed, i, k uint64) uint32 {
 	return uint32(((v/2)%2)<<31 + e<<23 + mant)
 }
 func cseli(seed, i, k uint64) uint64 { return (13*i + 7*k + seed) % 5 }
-func bidxi(n, seed, c uint64) uint64 { return (5*c + seed + c/3) % n }
+func bidxi(n, seed, c uint64) uint64 { return (7919*c + seed + c/3) % n }
 
 var bigUniverse = []struct {
 	bit, dim int
@@ -218,19 +219,27 @@ func bigCase(b BigDesc) hx.Case {
 	d := bigToDesc(b)
 	m := buildMesh(d)
 	var ws, outs [3]string
+	var files [3][]byte
+	var wclass [3]string
+	var read [3]plyx.Outcome
 	for k, f := range []ply.Format{ply.ASCII, ply.BinaryLittleEndian, ply.BinaryBigEndian} {
-		data, class, _ := writeOne(d, m, f)
-		switch class {
+		files[k], wclass[k], _ = writeOne(d, m, f)
+		if wclass[k] == "file" {
+			read[k] = readVia(files[k], b.Via)
+		}
+	}
+	decoyRead()
+	for k := range files {
+		switch wclass[k] {
 		case "file":
-			file, ok := bigFileCoq(b, data)
+			file, ok := bigFileCoq(b, files[k])
 			if !ok {
 				c.GoFail, c.FailKey = "written file has no parsable header", "ply:write-no-header"
 				file = "(BFile {| bf_header := []; bf_len := 0; bf_fp := (0,0)%Z; bf_vtoks := (0,0); bf_ftoks := (0,0) |})"
 			}
 			ws[k] = file
-			out := plyx.SafeRead(data)
-			outs[k] = bigOutCoq(out)
-			if out.Class == "hang" {
+			outs[k] = bigOutCoq(read[k])
+			if read[k].Class == "hang" {
 				c.GoFail, c.FailKey = "ReadMesh hangs on a file polyform wrote", "ply:read-hang"
 			}
 		case "declared":
@@ -297,12 +306,21 @@ func bigFamily(r *hx.Rng, tier string) []BigDesc {
 			BigDesc{Tri: true, N: 50, NF: blk/38 + 2, Mask: 1 | 8, Seed: seed(), Unspec: true},
 			BigDesc{Tri: true, N: blk/12 + 1, NF: blk/38 + 2, Mask: 1 | 8 | 4, Seed: seed(), Unspec: true})
 	}
+	// (d) vertex indices beyond 2^16 (few faces over many vertices), with and without per-corner texture coordinates
+	out = append(out,
+		BigDesc{Tri: true, N: 65537 + 300, NF: 50, Mask: 1, Seed: seed(), Unspec: true},
+		BigDesc{Tri: true, N: 70001, NF: 64, Mask: 1 | 8, Seed: seed(), Unspec: true})
 	out = append(out,
 		BigDesc{Tri: true, N: 3 * 1726, NF: 1726, Mask: 1 | 8, Seed: seed(), Unspec: true},
 		BigDesc{Tri: true, N: 5463, NF: 5463, Mask: 1 | 2, Seed: seed(), Unspec: false},
 		BigDesc{Tri: true, N: 5463, NF: 0, Mask: 1 | 8 | 64, Seed: seed(), Unspec: true},
 		BigDesc{Tri: true, N: 400, NF: 300, Mask: 255, Seed: seed(), Unspec: true},
 		BigDesc{Tri: false, N: 300, Mask: 255, Seed: seed(), Unspec: false})
+	for i := range out {
+		if r.Chance(1, 3) {
+			out[i].Via = hx.Pick(r, []string{"bigchunk", "chunk", "half", "dataerr"})
+		}
+	}
 	if tier != "quick" {
 		return out
 	}
@@ -329,5 +347,6 @@ func bigFamily(r *hx.Rng, tier string) []BigDesc {
 	pick(func(b BigDesc) bool { return b.Tri && b.NF*13 > 65536 && b.Mask == 1 }, 1)
 	pick(func(b BigDesc) bool { return b.Tri && b.Mask&8 != 0 && b.NF*38 > 65536 && b.NF < 1800 }, 1)
 	pick(func(b BigDesc) bool { return b.Tri && b.N <= 400 && b.NF <= 400 }, 1)
+	pick(func(b BigDesc) bool { return b.Tri && b.N > 65536 }, 1)
 	return q
 }
